@@ -204,8 +204,15 @@ class XExprEvaluator(ModelVisitor):
             self.is_x = True
             self.val = None
         else:
-            self.is_x = False
-            field.accept(self)
+            # Evaluate the element that the subscript selects
+            s.rhs.accept(self)
+            if not self.is_x:
+                idx = int(self.val)
+                if idx >= 0 and idx < len(field.field_l):
+                    field.field_l[idx].accept(self)
+                else:
+                    self.is_x = True
+                    self.val = None
             
     def visit_expr_in(self, e):
         e.lhs.accept(self)
